@@ -16,7 +16,7 @@ DEFAULT = dict(
     weights=dict(ssink=3, ssinkc=1, csink=2, const=0.3, never=0.2, map=4, mapto=0.5, filter=2, filteropt=0.5,
                  merge=4, orelse=1.5, snapshot=3, snapshot1=0.7, snapshotn=0.5, gate=1, hold=2.5, once=1, updates=1,
                  value=1, mapc=1.5, lift2=2, liftn=0.5, accum=1.5, collect=1, defer=0, split=0, switchs=0, switchc=0,
-                 sloop=0, cloop=0, router=0, holdlazy=0, switchdyn=0),
+                 sloop=0, cloop=0, router=0, holdlazy=0, switchdyn=0, accumlazy=0, collectlazy=0, route=0),
     max_defer=1, leakcheck=False, malformed=False, values=(-5, 15), coalesce_sends=False,
 )
 
@@ -138,6 +138,24 @@ class Gen:
             cs = [self.C() for _ in range(r.randint(3, 6))]
             n = self.fresh("c"); L.append(f"liftn {n} {' '.join(cs)}"); self.add_cell(n, self.t(*cs))
             if any(x in self.swc for x in cs): self.swc.add(n)
+        elif kind in ("accumlazy", "collectlazy") and s:
+            # the fold starts from a Lazy: a constant thunk or the Lazy of another (readable) cell
+            c0 = self.C()
+            if c0 and c0 not in self.swc and not self.t(c0) and self.r.random() < 0.6:
+                z = self.fresh("z"); L.append(f"lazy {z} {c0}")
+            else:
+                z = self.fresh("z"); L.append(f"mklazy {z} {self.small()}")
+            self.lazies.append(z)
+            if kind == "accumlazy":
+                n = self.fresh("c"); L.append(f"accumlazy {n} {s} {z} {self.op()}"); self.add_cell(n, self.t(s))
+            else:
+                n = self.fresh("s"); L.append(f"collectlazy {n} {s} {z} {self.op()}"); self.add_stream(n, self.t(s))
+        elif kind == "route" and self.routers:
+            # a further request on an existing router: a new key, the same key again, or a key whose stream was dropped
+            rn, src = self.r.choice(self.routers)
+            if rn in self.dropped: return False
+            key = self.r.randint(0, 2)
+            n = self.fresh("s"); L.append(f"route {n} {rn} {key}"); self.add_stream(n, self.t(src)); self.ident[n] = f"route:{rn}:{key}"
         elif kind == "accum" and s:
             n = self.fresh("c"); L.append(f"accum {n} {s} {self.small()} {self.op()}"); self.add_cell(n, self.t(s))
         elif kind == "collect" and s:
